@@ -184,10 +184,12 @@ class SnakeH(Harness):
         return (~self.action_legal(st, act)[0]) | self._full(ns)
 
     def obs_guard(self, st, act, ns, ts):
-        """the head of S' is on the board (always true after a legal move); after an invalid exit the docs do not define the planes"""
-        R_, C_ = self.dims()
+        """the head of S' has no NEGATIVE coordinate: after an invalid exit through the top/left edge the code writes the head through a
+        wrapped negative index (docs silent, terminal state) and the planes are not claimed; after an exit through the bottom/right
+        edge the out-of-range write is dropped, every plane is still the documented function of the state (head plane empty, body order
+        normalised by its maximum) and IS claimed"""
         hr, hc = vs(ns.head_position.row), vs(ns.head_position.col)
-        return (hr >= 0) & (hr < R_) & (hc >= 0) & (hc < C_)
+        return (hr >= 0) & (hc >= 0)
 
     def observer(self, ns):
         R_, C_ = self.dims()
